@@ -112,7 +112,8 @@ def judge(c, cfg, method, rel, origin, shape, headers, via, rp):
     dup = False
     for k, v in headers:
         kl = k.lower()
-        if kl in AC:
+        if kl in AC or kl.startswith("access-control-") or kl in ("timing-allow-origin", "cross-origin-resource-policy"):
+            # every access-control-* response header is a cross-origin grant, also ones newer than the six classic names
             if kl in got:
                 dup = True
             got[kl] = v
@@ -174,6 +175,10 @@ def run(c):
                         hs.append(("Origin", origin))
                     if shape == "preflight":
                         hs += [("Access-Control-Request-Method", "DELETE"), ("Access-Control-Request-Headers", "X-Other, content-type")]
+                    if rng.chance(1, 5):
+                        # what else a browser sends with cross-origin traffic
+                        hs += rng.sample([("Access-Control-Request-Private-Network", "true"), ("Sec-Fetch-Mode", "cors"), ("Sec-Fetch-Site", "cross-site"), ("Sec-Fetch-Dest", "empty"), ("Referer", "https://ref.example/"),
+                                          ("Cookie", "sid=1"), ("Authorization", "Bearer x"), ("Access-Control-Request-Local-Network", "true"), ("Timing-Allow-Origin", "*")], 2)
                     # field names are case-insensitive: a third of the requests spell them in lower / upper / mixed case
                     cs_ = rng.below(6)
                     if cs_ == 0:
